@@ -20,7 +20,7 @@ import ast
 from ..astmatch import assignments, guard_atoms, guards, leaves, match, resolve, strip_wrappers
 from ..pm import dotted, unparse, walk_no_nested
 from ..report import Ctx
-from .c04 import Unrecognised, _anc, _const, _enclosing_for, _params, _target_names, assign_loop, lin_local, meta_fields
+from .c04 import Unrecognised, _anc, _const, _enclosing_for, _params, _target_names, assign_loop, lin_local, meta_fields, subst
 
 
 # ------------------------------------------------------------------------------------------------ reservation ledger
@@ -36,47 +36,67 @@ def _loops_of(node, fn) -> list:
     return [p for p in _anc(node, fn) if isinstance(p, ast.For)]
 
 
-def reservation_terms(fi) -> list[Term]:
-    """decompose the function's result into counted terms; raise Unrecognised when a part of the sum cannot be interpreted"""
-    fn = fi.node
-    rets = [r for r in walk_no_nested(fn) if isinstance(r, ast.Return) and r.value is not None]
-    if len(rets) != 1:
-        raise Unrecognised(f"{fi.short} has {len(rets)} value returns")
-    aug = {}
-    plain = {}
-    for a in walk_no_nested(fn):
-        if isinstance(a, ast.AugAssign) and isinstance(a.target, ast.Name):
-            aug.setdefault(a.target.id, []).append(a)
-        elif isinstance(a, ast.Assign) and len(a.targets) == 1 and isinstance(a.targets[0], ast.Name):
-            plain.setdefault(a.targets[0].id, []).append(a)
-        elif isinstance(a, ast.AnnAssign) and isinstance(a.target, ast.Name) and a.value is not None:
-            plain.setdefault(a.target.id, []).append(a)
-    params = set(_params(fn))
+def reservation_terms(fi, pm=None) -> list[Term]:
+    """decompose the function's result into counted terms; raise Unrecognised when a part of the sum cannot be interpreted.
+    A summand that is a call of another function of the package is followed (its parameters replaced by the arguments), so
+    the terms are always expressed in the vocabulary of `fi`."""
     out: list[Term] = []
 
     def is_cond(e):
         return isinstance(e, (ast.BoolOp, ast.Compare)) or (isinstance(e, ast.UnaryOp) and isinstance(e.op, ast.Not))
 
-    def dec(e, conds, iters, node, depth=0):
-        if depth > 12:
+    class Frame:
+        def __init__(self, f, binding):
+            self.fi, self.fn, self.binding = f, f.node, binding
+            self.aug, self.plain = {}, {}
+            for a in walk_no_nested(self.fn):
+                if isinstance(a, ast.AugAssign) and isinstance(a.target, ast.Name):
+                    self.aug.setdefault(a.target.id, []).append(a)
+                elif isinstance(a, ast.Assign) and len(a.targets) == 1 and isinstance(a.targets[0], ast.Name):
+                    self.plain.setdefault(a.targets[0].id, []).append(a)
+                elif isinstance(a, ast.AnnAssign) and isinstance(a.target, ast.Name) and a.value is not None:
+                    self.plain.setdefault(a.target.id, []).append(a)
+            self.params = set(_params(self.fn))
+
+        def out_expr(self, e):
+            """expression of this frame in the caller's vocabulary: locals resolved, parameters replaced by the arguments"""
+            if not self.binding:
+                return e
+            return subst(resolve(e, self.fn), self.binding)
+
+    def emit(fr, amount, conds, iters, node):
+        out.append(Term(amount, [(fr.out_expr(c), pol) for c, pol in conds], [(t, fr.out_expr(it)) for t, it in iters], node))
+
+    def callee_of(fr, e):
+        if pm is None or not isinstance(e, ast.Call):
+            return None
+        if isinstance(e.func, ast.Name):
+            r = pm.resolve(fr.fi.module, e.func.id)
+            return r[1] if r and r[0] == "func" else None
+        if isinstance(e.func, ast.Attribute) and isinstance(e.func.value, ast.Name) and fr.fi.cls and e.func.value.id in ("self", "cls", fr.fi.cls):
+            return pm.find_method(fr.fi.cls, e.func.attr)
+        return None
+
+    def dec(e, conds, iters, node, fr, depth=0):
+        if depth > 14:
             raise Unrecognised("reservation expression too deep")
         if isinstance(e, ast.BinOp) and isinstance(e.op, ast.Add):
-            dec(e.left, conds, iters, node, depth + 1)
-            dec(e.right, conds, iters, node, depth + 1)
+            dec(e.left, conds, iters, node, fr, depth + 1)
+            dec(e.right, conds, iters, node, fr, depth + 1)
         elif isinstance(e, ast.Constant) and isinstance(e.value, (int, bool)):
             if e.value:
-                out.append(Term(e, conds, iters, node))
+                emit(fr, e, conds, iters, node)
         elif isinstance(e, ast.IfExp):
-            dec(e.body, conds + [(e.test, True)], iters, node, depth + 1)
-            dec(e.orelse, conds + [(e.test, False)], iters, node, depth + 1)
+            dec(e.body, conds + [(e.test, True)], iters, node, fr, depth + 1)
+            dec(e.orelse, conds + [(e.test, False)], iters, node, fr, depth + 1)
         elif isinstance(e, ast.Call) and isinstance(e.func, ast.Name) and e.func.id in ("int", "bool") and len(e.args) == 1 and not e.keywords:
             inner = e.args[0]
             if isinstance(inner, ast.Call) and isinstance(inner.func, ast.Name) and inner.func.id == "bool" and len(inner.args) == 1:
-                out.append(Term(ast.Constant(value=1), conds + [(inner.args[0], True)], iters, node))
+                emit(fr, ast.Constant(value=1), conds + [(inner.args[0], True)], iters, node)
             elif e.func.id == "bool" or is_cond(inner):
-                out.append(Term(ast.Constant(value=1), conds + [(inner, True)], iters, node))
+                emit(fr, ast.Constant(value=1), conds + [(inner, True)], iters, node)
             else:
-                dec(inner, conds, iters, node, depth + 1)
+                dec(inner, conds, iters, node, fr, depth + 1)
         elif isinstance(e, ast.Call) and isinstance(e.func, ast.Name) and e.func.id in ("sum", "len") and len(e.args) == 1 \
                 and isinstance(e.args[0], (ast.GeneratorExp, ast.ListComp)):
             g = e.args[0]
@@ -85,19 +105,48 @@ def reservation_terms(fi) -> list[Term]:
                 i2.append((gen.target, gen.iter))
                 c2.extend((t, True) for t in gen.ifs)
             if e.func.id == "len":
-                out.append(Term(ast.Constant(value=1), c2, i2, node))
+                emit(fr, ast.Constant(value=1), c2, i2, node)
             else:
-                dec(g.elt, c2, i2, node, depth + 1)
-        elif isinstance(e, ast.Name) and e.id not in params and (e.id in aug or e.id in plain):
-            for a in plain.get(e.id, []):
-                dec(a.value, conds + guards(a, fn), iters + [(lp.target, lp.iter) for lp in _loops_of(a, fn)], a, depth + 1)
-            for a in aug.get(e.id, []):
+                dec(g.elt, c2, i2, node, fr, depth + 1)
+        elif isinstance(e, ast.Name) and e.id not in fr.params and (e.id in fr.aug or e.id in fr.plain):
+            for a in fr.plain.get(e.id, []):
+                dec(a.value, conds + guards(a, fr.fn), iters + [(lp.target, lp.iter) for lp in _loops_of(a, fr.fn)], a if not fr.binding else node, fr, depth + 1)
+            for a in fr.aug.get(e.id, []):
                 if not isinstance(a.op, ast.Add):
                     raise Unrecognised(f"`{unparse(a)}`")
-                dec(a.value, conds + guards(a, fn), iters + [(lp.target, lp.iter) for lp in _loops_of(a, fn)], a, depth + 1)
+                dec(a.value, conds + guards(a, fr.fn), iters + [(lp.target, lp.iter) for lp in _loops_of(a, fr.fn)], a if not fr.binding else node, fr, depth + 1)
+        elif callee_of(fr, e) is not None:
+            cal = callee_of(fr, e)
+            ps = [p for p in _params(cal.node) if not (cal.cls and not cal.is_static and p in ("self", "cls"))]
+            b = dict(zip(ps, e.args))
+            b.update({k.arg: k.value for k in e.keywords if k.arg})
+            a = cal.node.args
+            allp = list(a.posonlyargs) + list(a.args)
+            for prm, dflt in zip(allp[len(allp) - len(a.defaults):], a.defaults):
+                b.setdefault(prm.arg, dflt)
+            if set(ps) - set(b):
+                raise Unrecognised(f"the call `{unparse(e)[:60]}`")
+            b = {k: fr.out_expr(v) for k, v in b.items()}
+            # conditions of the call site, already in the caller's vocabulary
+            pre_c = [(fr.out_expr(c), pol) for c, pol in conds]
+            pre_i = [(t, fr.out_expr(it)) for t, it in iters]
+            sub = Frame(cal, b)
+            rets = [r for r in walk_no_nested(cal.node) if isinstance(r, ast.Return) and r.value is not None]
+            if not rets:
+                raise Unrecognised(f"`{cal.short}` returns nothing countable")
+            n0 = len(out)
+            for r in rets:
+                dec(r.value, guards(r, cal.node), [(lp.target, lp.iter) for lp in _loops_of(r, cal.node)], node, sub, depth + 1)
+            for t in out[n0:]:
+                t.conds = pre_c + t.conds
+                t.iters = pre_i + t.iters
         else:
             raise Unrecognised(f"the summand `{unparse(e)[:60]}`")
-    dec(rets[0].value, [], [], rets[0])
+    top = Frame(fi, {})
+    rets = [r for r in walk_no_nested(fi.node) if isinstance(r, ast.Return) and r.value is not None]
+    if len(rets) != 1:
+        raise Unrecognised(f"{fi.short} has {len(rets)} value returns")
+    dec(rets[0].value, [], [], rets[0], top)
     return out
 
 
@@ -148,7 +197,7 @@ def r03_1(ctx: Ctx) -> None:
     fn = res.node
     terms = None
     try:
-        terms = reservation_terms(res)
+        terms = reservation_terms(res, pm)
     except Unrecognised as e:
         ctx.gap("R03.1", f"the reservation computed by {res.short} could not be decomposed into counted terms: {e}")
     kinds: dict[str, list] = {"subline": [], "footnote": [], "source": [], "header": [], "?": []}
@@ -266,6 +315,8 @@ def r03_1(ctx: Ctx) -> None:
                 lf = lin_local(a.value, L.lp, L.fn)
                 lf[L.R] = lf.get(L.R, 0) + 1
                 forms.append(lf)
+        names = {k: unparse(v) for k, v in getattr(L, "bind", {}).items()}       # loop names that stand for a field of the generic row
+        forms = [{names.get(k, k): v for k, v in lf.items()} for lf in forms]
         budgeted_at_break = any(lf not in ({}, {hkey: 1}, {L.R: 1, hkey: 1}) for lf in forms)
         ctx.instance("R03.1", rend.where(span[0]) if span else rend.where(), f"ledger: page-top group headings emitted under `{tguard[:80]}`; the fill counter is updated by {forms}")
         if top and not depends_on_group_start and not budgeted_at_break:
